@@ -233,6 +233,23 @@ def bad_calls(snap: Snap, ctx) -> list[tuple[str, dict]]:
         out.append(("phase/index-out-of-range", {"op": "phase_shift_index", "phi": 1.0, "targets": [len(qids) + 2], "basis": bases[0]}))
     out.append(("measure/bad-basis", {"op": "measure", "basis": "no-basis"}))
     # ---------------------------------------------------- variables
+    own = sorted(getattr(ctx.sut, "vars", {}))
+    if own and not snap.parametrized:
+        # the FIRST use of an own variable is refused for a reason unrelated to
+        # it (mode errors are RuntimeErrors, unknown names ValueErrors): the
+        # sequence must stay a regular, non-parametrized one
+        vname = own[0]
+        out.append(("var/own-unknown-channel", {"op": "delay_var", "ch": "ghost", "var": vname}))
+        for n in names:
+            cs = snap.channels[n]
+            if cs.is_dmm or not cs.slots:
+                continue
+            if cs.in_eom:
+                out.append(("var/own-add-in-eom", {"op": "add_var", "ch": n, "var": vname, "d": _valid_d(cs.obj)}))
+                out.append(("var/own-enable-twice", {"op": "enable_eom_var", "ch": n, "var": vname, "amp_on": _valid_amp(cs.obj)}))
+            else:
+                out.append(("var/own-eom-pulse-outside", {"op": "add_eom_pulse_var", "ch": n, "var": vname}))
+            break
     cands = [n for n in names if not snap.channels[n].is_dmm and snap.channels[n].slots and not snap.channels[n].in_eom]
     if cands:
         n = cands[0]
